@@ -135,7 +135,8 @@ PROPS = {
     },
     "C08": {
         "title": "Reachability operations return exactly the least fixed point",
-        "rules": [on_program(rules_dispatch.rule_dispatch), rules_ftype.rule_mix_image, on_program(rules_sibling.rule_image_fire), on_program(rules_dispatch.rule_split_complete)],
+        "rules": [on_program(rules_dispatch.rule_dispatch), rules_ftype.rule_mix_image, on_program(rules_sibling.rule_image_fire), on_program(rules_dispatch.rule_split_complete), on_program(rules_sibling.rule_graph_diagonals),
+                  on_program(rules_ct.rule_key_level_flag)],
         "explanation": STRUCTURAL + ". C08: one clause — the traditional (frontier / no frontier), saturation and one-step image factories select the same accumulate operator per forest kind "
                        "(boolean MT: UNION, integer MT: DIST_MIN, EV+: MINIMUM), a necessary condition of all algorithms returning the identical edge and of the distance variants using (min, +1) everywhere; "
                        "plus the cross-forest discipline of the reachability code.",
@@ -147,11 +148,12 @@ PROPS = {
     },
     "C09": {
         "title": "One-step image and vector-matrix products follow the relational definition",
-        "rules": [rules_ftype.rule_mix_image, on_program(rules_sibling.rule_image_fire), on_program(rules_dispatch.rule_dispatch)],
-        "explanation": STRUCTURAL + ". C09: twin clause (the image step and saturation's fire step define their shared locals alike; the index range written into the result node is the size of the node's own level); cross-forest clause — in the image / vector-matrix template (all instantiations), its helpers and the relation-node abstraction, set forest, relation forest and result forest are three symbols and every handle is used only with its own.",
-        "assumptions": ["the relational definition itself is not decided", "prepost_set_mtrel's private _compute is reached with swapped operands for MV_MULTIPLY; its parameter roles are then left unknown (no alarm, fewer checks)"],
-        "technique": "forest-indexed typing of node handles over clang CFGs",
-        "level_text": "exact static rule check over prepost_sets.cc, prepost_common.h, reach_trad.cc, satur_sets.cc, rel_node.h; decides the cross-forest clause only",
+        "rules": [rules_ftype.rule_mix_image, on_program(rules_sibling.rule_image_fire), on_program(rules_dispatch.rule_dispatch), on_program(rules_ct.rule_key_level_flag),
+                  on_program(rules_level.rule_next_level)],
+        "explanation": STRUCTURAL + ". C09: flag clause (the constructor flag that decides whether the level is part of the compute-table key — i.e. whether levels skipped by both operands are summed over — is computed from the operand (key) forests only); twin clause (the image step and saturation's fire step define their shared locals alike; the index range written into the result node is the size of the node's own level); cross-forest clause — in the image / vector-matrix template (all instantiations), its helpers and the relation-node abstraction, set forest, relation forest and result forest are three symbols and every handle is used only with its own.",
+        "assumptions": ["the relational definition itself is not decided", "the key-level-flag rule decides which forests the level-skipping flag may depend on, not that the flag's formula is the right one", "prepost_set_mtrel's private _compute is reached with swapped operands for MV_MULTIPLY; its parameter roles are then left unknown (no alarm, fewer checks)"],
+        "technique": "forest-indexed typing of node handles over clang CFGs; twin comparison; constructor flag provenance (reduction-rule queries vs compute-table key forests); sign typing of level locals",
+        "level_text": "exact static rule check over prepost_sets.cc, prepost_common.h, reach_trad.cc, satur_sets.cc, rel_node.h; decides the cross-forest, twin, flag-provenance and level-sign clauses",
         "design_ref": "DESIGN.md §2.2, §3 C09",
         "level_note": "trusts clang 14 CFGs and the role table of compute() parameters",
     },
@@ -169,8 +171,8 @@ PROPS = {
     "C12": {
         "title": "Results do not depend on storage, memory-manager or deletion policy",
         "rules": [on_program(rules_storage.rule_chunkptr), on_program(rules_storage.rule_layout), callers_for("C12"), on_program(rules_canon.rule_hash),
-                  on_program(rules_sibling.rule_small_hole_threshold)],
-        "explanation": STRUCTURAL + ". C12: stale-chunk-pointer clause (a pointer from getChunkAddress is not used after a call that can reach requestChunk — a bug of exactly that shape shows under the reallocating managers and not under malloc style) "
+                  on_program(rules_sibling.rule_small_hole_threshold), on_program(rules_storage.rule_threshold_first)],
+        "explanation": STRUCTURAL + ". C12: threshold clauses of the hole managers (the small-hole threshold is the same quantity at every site; the large-hole threshold is raised before the holes are re-classified against it), stale-chunk-pointer clause (a pointer from getChunkAddress is not used after a call that can reach requestChunk — a bug of exactly that shape shows under the reallocating managers and not under malloc style) "
                        "and layout clause (full-only, sparse-only and either-form writers and readers of a packed node agree on the region bases and on the hash recipe, so the storage flag cannot change what is read back).",
         "assumptions": ["the relational statement itself (same results under every policy combination) is a hyper-property over configurations and is not decided",
                         "uses of a chunk pointer are seen only where they occur in exported events (call arguments, stores, conditions, initialisers)"],
@@ -182,10 +184,10 @@ PROPS = {
     "C13": {
         "title": "Variable reordering preserves every function and every held edge",
         "rules": [callers_for("C13"), on_program(rules_layer.rule_cache_before_rewrite), on_program(rules_layer.rule_exchange_once),
-                  on_program(rules_sibling.rule_swap_loops), rules_own.rule_own_swap, on_program(rules_level.rule_index_kind)],
+                  on_program(rules_sibling.rule_swap_loops), rules_own.rule_own_swap, on_program(rules_level.rule_index_kind), on_program(rules_level.rule_array_extent)],
         "explanation": STRUCTURAL + ". C13: in-place rewrite/relabel/handle-swap primitives are reachable only from the adjacent-swap routines; every root of the reordering "
                        "call cone clears the compute tables first; a swap routine that relabels levels exchanges the variable order exactly once; level numbers and variable numbers are kept apart "
-                       "(what getVarByLevel returns goes only where a variable is expected, what getLevelByVar/getNodeLevel/getLevel return only where a level is expected — they differ exactly after a reordering).",
+                       "(what getVarByLevel returns goes only where a variable is expected, what getLevelByVar/getNodeLevel/getLevel return only where a level is expected — they differ exactly after a reordering); an array indexed by level / variable numbers has getNumVariables()+1 elements (defect D13 in six of the eight heuristics).",
         "assumptions": ["function preservation under the eight schedules is not decided", "swapAdjacentVariables called directly by a user (documented driver-only primitive) is outside the cone roots"],
         "technique": "who-may-call tables over the resolved call graph; CFG dominance (cache clear before first reordering call); exactly-once path rule; index-kind typing (level vs variable) of int locals and argument positions",
         "level_text": "exact static rule check over the whole-program call graph and the CFGs of the reordering entry points; decides the invalidation/rewrite/relabel disciplines that reordering correctness needs, not function preservation itself",
@@ -238,10 +240,25 @@ PROPS = {
         "design_ref": "DESIGN.md §2.8, §2.4 (guard.orphan), §3 C17",
         "level_note": "trusts the clang 14 front end/CFG and the rule tables in lib/rules_life.py; virtual calls are expanded to all overriders",
     },
+    "C11": {
+        "title": "Enumeration and counting agree with the function",
+        "rules": [on_program(rules_level.rule_fold_zeros), on_program(rules_level.rule_card_skipped), on_program(rules_level.rule_mark_once), on_program(rules_level.rule_next_level),
+                  rules_orphan.rule_iterator_init],
+        "explanation": STRUCTURAL + ". C11: counting clauses only. Cardinality: the sparse scan is a plain sum in which handle 0 contributes the literal 0 (all three result types instantiate one template); a level the diagram skips "
+                       "multiplies the count by the size of that level on every path except primed levels of identity-reduced forests; level 0 counts 1; the next level follows the set/relation dispatch. "
+                       "Node and edge counts: the marker queues a handle only if it is a non-terminal not yet marked and marks it first (each reachable node explored once), the packed-node walker offers every stored child, "
+                       "countEdges / countNonzeroEdges unpack FULL / SPARSE and sum the sizes of the marked nodes. Iterators: the fields every accepted end-of-iteration guard rests on are initialised together.",
+        "assumptions": ["the order, multiplicity and values reported by the iterators (first/next with masks) are run-time sequences: not decided", "that scaleBy multiplies and addTo adds in each result type is read from the policy bodies only as 'branch-free'",
+                        "counts are decided structurally, not numerically"],
+        "technique": "must-pass-through and guard-edge dominance over clang CFGs of card_templ::_compute, node_marker::addToQueue and the storage walker; policy-body inspection (branch-free accumulate); constructor/mode agreement of the two edge counters",
+        "level_text": "exact static rule check over all instantiations of card_templ::_compute, node_marker's queueing and counting functions and the iterator constructors; decides structural necessary conditions of the counting clauses, not enumeration order",
+        "design_ref": "DESIGN.md §3 C11 (as built)",
+        "level_note": "trusts clang 14 CFGs; the enumeration clauses of C11 stay undecided and are listed under assumptions",
+    },
     "C19": {
         "title": "Values survive encoding into terminals and edge values",
-        "rules": [on_program(rules_guard.rule_int_overflow), on_program(rules_guard.rule_edge_for_value), on_program(rules_codec.rule_terminal_codec), on_program(rules_codec.rule_tokens)],
-        "explanation": STRUCTURAL + ". C19: range-guard clause (the stored long value itself is tested against intMin()/intMax(), which fold to the documented 31-bit bounds, before the flag bit is set; a value of the wrong range type is rejected) "
+        "rules": [on_program(rules_guard.rule_int_overflow), on_program(rules_guard.rule_edge_for_value), on_program(rules_guard.rule_zero_of_stored), on_program(rules_codec.rule_terminal_codec), on_program(rules_codec.rule_tokens)],
+        "explanation": STRUCTURAL + ". C19: range-guard clause (the stored long value itself is tested against intMin()/intMax(), which fold to the documented 31-bit bounds, before the flag bit is set; a value of the wrong range type is rejected; the EV* zero edge is chosen by testing the edge value as stored, after narrowing) "
                        "and codec-agreement clause (flag bit, shift amounts, zero/false ↔ handle 0, boolean coding agree between encoder and decoder; type letters agree between writer and reader).",
         "assumptions": ["recovery of all 2^32 bit patterns is not decided (value enumeration is execution)", "sizeof(node_handle) == 4 as in the analysed build"],
         "technique": "must-check dominance over clang CFGs with constant folding of the bounds; encoder/decoder signature comparison (shift/or events, switch-case tables)",
@@ -254,10 +271,9 @@ PROPS = {
 _PENDING ="check under construction in this round (planned rules: DESIGN.md §3); not claimed until it runs"
 NOT_APPLICABLE = {
     "C03": "pointwise value semantics of a recursive partition builder/evaluator over all minterm multisets: no structural necessary condition that is not brittle (DESIGN §3 C03)",
-    "C11": "order, multiplicity and counts of enumerated assignments are run-time sequences/arithmetic; shape facts of that code are decided under C16/C15/C07 (DESIGN §3 C11)",
     "C18": "non-overlap/content preservation over arbitrary request/recycle sequences is a heap-shape invariant over run-time addresses; no abstract interpreter for these C++ units is available (DESIGN §3 C18)",
     "C20": "equality of two fixed-point computations over event lists; algorithmic semantics (DESIGN §3 C20)",
 }
-for _p in ("C01", "C02", "C04", "C05", "C06", "C07", "C08", "C09", "C10", "C12", "C13", "C14", "C15", "C16", "C19"):
+for _p in ("C01", "C02", "C04", "C05", "C06", "C07", "C08", "C09", "C10", "C11", "C12", "C13", "C14", "C15", "C16", "C19"):
     if _p not in PROPS:
         NOT_APPLICABLE[_p] = _PENDING
